@@ -248,6 +248,19 @@ let () =
                               @ List.map (fun v -> (nat v, false)) (bits_of_mask (int_of_string neg)) in
                    expect_bool "C04" p.pstep what dst (vt_of_bfun n (Model.restrict_s lits (bf ta)))
                  | None -> stat "unresolved" 1)
+              | [ "RESTRICTH"; dst; a; c ] ->
+                (* the cube is given as a handle: its literals are read off its value table *)
+                (match get a, get c with
+                 | Some ta, Some tc ->
+                   let sat = List.filter (fun i -> tc.(i) <> 0) (List.init (1 lsl n) (fun i -> i)) in
+                   let pos = List.filter (fun v -> List.for_all (fun i -> (i lsr v) land 1 = 1) sat) (List.init n (fun v -> v)) in
+                   let neg = List.filter (fun v -> List.for_all (fun i -> (i lsr v) land 1 = 0) sat) (List.init n (fun v -> v)) in
+                   let is_cube = sat <> [] && List.length sat = 1 lsl (n - List.length pos - List.length neg) in
+                   if is_cube then begin
+                     let lits = List.map (fun v -> (nat v, true)) pos @ List.map (fun v -> (nat v, false)) neg in
+                     expect_bool "C04" p.pstep what dst (vt_of_bfun n (Model.restrict_s lits (bf ta)))
+                   end else stat "unresolved" 1
+                 | _ -> stat "unresolved" 1)
               | [ "SUBST"; dst; a; sid ] ->
                 (match get a, Hashtbl.find_opt subst_tts (int_of_string sid) with
                  | Some ta, Some reps when List.for_all (fun (_, t) -> Array.length t = 1 lsl n) reps ->
